@@ -1719,7 +1719,14 @@ class BaseImage(metaclass=ImageMeta):
                         "an animation"
                     )
 
-            return renderer(self._get_image(), *args, **kwargs)
+            img = self._get_image()
+            try:
+                return renderer(img, *args, **kwargs)
+            except BaseException:
+                # The image might not have been closed yet, e.g. if an image
+                # manipulation step failed
+                self._close_image(img)
+                raise
 
         finally:
             if isinstance(_size, Size):
